@@ -118,9 +118,14 @@ def gen(ctx, n):
                     cls='ctx:len')
 
 
-def task(prop, seed, size, cfgbins):
+def make(seed, size):
     ctx = core.Ctx(seed, prefix='t%d_' % (seed % 100000))
     gen(ctx, size)
+    return ctx
+
+
+def task(prop, seed, size, cfgbins):
+    ctx = make(seed, size)
     return core.run_and_judge(prop, ctx, cfgbins, compare=True)
 
 
